@@ -121,8 +121,8 @@ def _cosem_stream(rng: random.Random, base: list[dict]):
 
 
 def _job(args):
-    import logging
-    logging.disable(logging.CRITICAL)
+    from .core import set_logging
+    set_logging(args)
     seed, n, base = args
     rng = random.Random(seed)
     loop = asyncio.new_event_loop()
@@ -191,8 +191,8 @@ def _job(args):
                     if j >= len(qm) or j >= len(qp):
                         break
                     t = D.record(block, "crlf", text, ident, f"pipeline:{factory}")
-                    t["automsg"] = D.call(decm.decode_message, qm[j])
-                    t["autoh"] = D.call(decp.decode_message_payload, qp[j])
+                    t["automsg"] = D.call(decm.decode_message, qm[j], twice=False)
+                    t["autoh"] = D.call(decp.decode_message_payload, qp[j], twice=False)
                     if t["autoh"]["raised"] == "returned NoneType":
                         t["autoh"]["raised"] = "None"
                     t["id"] = stable_id("pipe-d", t["id"], factory, j)
